@@ -108,7 +108,8 @@ def main(tier: str, selftest_cases: int = 0) -> int:
             rep.violation(f"C16:side:{k}", f"{k} differ between the shipped parser and the grammar: "
                           f"{getattr(a, 'term_names', None) if k == 'terminal names' else ''}",
                           replay([("m", "unit"), ("5 m", "quantity"), ("m^2/s", "unit"), ("5.5 m²⋅s", "quantity"),
-                                  ("m*s/kg", "unit")]))
+                                  ("m*s/kg", "unit")]),
+                          soft=True)   # a structural difference; the inputs that show it come from 3. and 4.
     s = z3.String("s")
     for name in sorted(set(a.term_names) & set(b.term_names)):
         ra, rb = pt.terminal_re(a, name), pt.terminal_re(b, name)
@@ -152,25 +153,29 @@ def main(tier: str, selftest_cases: int = 0) -> int:
     if pr["result"] == "sat":
         prefix = pt.expand_path(b if pr["path"] and pr["path"][0] in b.nonterminals + b.term_names else a,
                                 pr["path"], "$END")
+        # the path is completed to a sentence that the two REAL parsers treat differently (the table
+        # drivers also differ where only the names of helper rules do, which no input shows)
         found = None
+        run_shipped, run_fresh = real_parsers(b)
         allterms = sorted(set(terms) | set(t for t in b.term_names if t not in b.ignore))
         for k in range(0, 5):
             for suffix in itertools.product(allterms, repeat=k):
                 seq = prefix + list(suffix)
-                if any(t not in a.terminals or t not in b.terminals for t in seq):
+                if any(t not in WITNESS for t in seq):
                     continue
-                ra, rb = pt.python_driver(a, pr["start"], seq), pt.python_driver(b, pr["start"], seq)
-                if ra != rb:
+                if run_shipped(render(seq), pr["start"]) != run_fresh(render(seq), pr["start"]):
                     found = seq
                     break
             if found is not None:
                 break
         if found is None:
-            raise symnum.HarnessError(f"the product automata disagree after {pr['path']} on "
-                                      f"{pr['lookahead']} but no completing input was found")
-        rep.violation("C16:tables", f"after {pr['path']} the shipped tables and the grammar disagree on "
-                      f"{pr['lookahead']} (states {pr['states']}); distinguishing tokens {found}; "
-                      f"differing rules: {rule_sets[:4]}", replay([(render(found), pr["start"])]))
+            rep.ob("unknown", f"the product automata disagree after {pr['path']} on {pr['lookahead']}; no "
+                              "completing input of <= 4 further tokens is treated differently by the real parsers",
+                   ("bmc", "completion"))
+        else:
+            rep.violation("C16:tables", f"after {pr['path']} the shipped tables and the grammar disagree on "
+                          f"{pr['lookahead']} (states {pr['states']}); distinguishing tokens {found}; "
+                          f"differing rules: {rule_sets[:4]}", replay([(render(found), pr["start"])]))
     elif iso["result"] == "unsat":
         raise symnum.HarnessError("no isomorphism exists yet no reachable pair disagrees within the bound: "
                                   "unreachable states differ or the encoding is wrong")
@@ -209,6 +214,27 @@ def main(tier: str, selftest_cases: int = 0) -> int:
     rep.assumptions += ["Lark's runtime classes embedded in _parser.py are trusted (only DATA/MEMO are compared)",
                         "the black/isort/sed post-processing of the Makefile rule does not change data"]
     return rep.finish()
+
+
+def real_parsers(b: pt.Tables) -> Tuple[Any, Any]:
+    """(text, start) -> outcome through the real shipped parser / a real freshly generated one."""
+    from measured import _parser
+
+    shipped, fresh = _parser.Parser(), b.module.Lark_StandAlone()  # type: ignore
+
+    def norm(t: Any) -> Any:
+        if hasattr(t, "children"):
+            return (str(t.data), tuple(norm(c) for c in t.children))
+        return (getattr(t, "type", None), str(t))
+
+    def run(p: Any, text: str, start: str) -> Tuple[str, str]:
+        try:
+            return ("tree", repr(norm(p.parse(text, start=start))))
+        except Exception as e:
+            lark_error = any(c.__name__ == "LarkError" for c in type(e).__mro__)
+            return ("reject", "") if lark_error else ("crash", type(e).__name__)
+
+    return (lambda t, s: run(shipped, t, s)), (lambda t, s: run(fresh, t, s))
 
 
 def differential(a: pt.Tables, b: pt.Tables, L: int) -> Tuple[int, List[Tuple[str, str]]]:
